@@ -538,6 +538,17 @@ def function(
         },
     )
 
+    sig_order = [
+        arg.arg for arg in function_def.args.args + function_def.args.kwonlyargs
+    ]
+    intermediate_repr["params"] = OrderedDict(
+        sorted(
+            intermediate_repr["params"].items(),
+            key=lambda name_param: sig_order.index(name_param[0])
+            if name_param[0] in sig_order
+            else len(sig_order),
+        )
+    )
     intermediate_repr["params"].update(params_to_append)
     intermediate_repr["params"] = OrderedDict(
         map(
